@@ -39,8 +39,9 @@ def schemas():
 
 
 REPORT_V = """From Coq Require Import String List.
-Require Import IPV.C10.Raw IPV.C10.RawSpec IPV.C10.RawLevels IPV.C10.Serial IPV.Gen.Gen_C10_schemas.
-Eval vm_compute in (all_defects schemas_level0 schemas_level1 schemas_level2).
+Require Import IPV.C10.Raw IPV.C10.RawSpec IPV.C10.RawLevels IPV.C10.Serial IPV.C10.Copy IPV.C10.Known IPV.Gen.Gen_C10_schemas.
+Eval vm_compute in (all_defects schemas_level0 schemas_level1 schemas_level2 ++ copy_defects all_schemas all_serial
+                    ++ filter (fun d => negb (existsb (str3_eqb d) known_dump_defects)) (dump_defects key_members all_schemas all_serial))%list.
 Eval vm_compute in (classes_not_ok schemas_level0 schemas_level1 schemas_level2).
 Eval vm_compute in (map (fun p => (fst (fst p), serial_ok p)) all_serial).
 Eval vm_compute in (names_ok schemas_level0 schemas_level1).
@@ -49,7 +50,7 @@ Eval vm_compute in (names_ok schemas_level0 schemas_level1).
 
 def static_report():
     """Coq's own verdict on the regenerated schemas: ([(class,item,why)], [class not ok], [class with Serialize/Deserialize mismatch])"""
-    for t in ("Gen/Gen_C10_schemas.vo", "C10/RawLevels.vo", "C10/Serial.vo"):
+    for t in ("Gen/Gen_C10_schemas.vo", "C10/RawLevels.vo", "C10/Serial.vo", "C10/Copy.vo", "C10/Known.vo"):
         if not os.path.exists(os.path.join(vlib.COQ, t)):
             return None
     rc, out = vlib.coq_eval(REPORT_V, timeout=300)
@@ -109,6 +110,38 @@ Decay
 """
 
 
+CDMUSIC = """SURFACE_MASTER_SPECIES
+ Goe_uni Goe_uniOH-0.5
+ Goe_tri Goe_triO-0.5
+SURFACE_SPECIES
+ Goe_triO-0.5 = Goe_triO-0.5
+  -cd_music 0 0 0 0 0
+  log_k 0
+ Goe_triO-0.5 + H+ = Goe_triOH+0.5
+  -cd_music 1 0 0 0 0
+  log_k 9.20
+ Goe_triO-0.5 + Na+ = Goe_triONa+0.5
+  -cd_music 0 1 0 0 0
+  log_k -0.60
+ Goe_triOH+0.5 + Cl- = Goe_triOHCl-0.5
+  -cd_music 0 -1 0 0 0
+  log_k -0.45
+ Goe_uniOH-0.5 = Goe_uniOH-0.5
+  -cd_music 0 0 0 0 0
+  log_k 0
+ Goe_uniOH-0.5 + H+ = Goe_uniOH2+0.5
+  -cd_music 1 0 0 0 0
+  log_k 9.20
+ Goe_uniOH-0.5 + Na+ = Goe_uniOHNa+0.5
+  -cd_music 0 1 0 0 0
+  log_k -0.60
+ Goe_uniOH2+0.5 + Cl- = Goe_uniOH2Cl-0.5
+  -cd_music 0 -1 0 0 0
+  log_k -0.45
+"""
+DEFS = RATES + CDMUSIC
+
+
 def fmt(x):
     return "%.6g" % x
 
@@ -116,7 +149,7 @@ def fmt(x):
 def gen_case(rng, k):
     """A structured reactant set touching every entity kind, followed by a reaction history.  Returns
     (defs, body, meta): defs = database additions (RATES ...), body = reactants + history."""
-    defs = RATES
+    defs = DEFS
     nsol = rng.choice([1, 2, 2, 3])
     L = []
     meta = {"kinds": set(["solution"]), "iso": False}
@@ -165,10 +198,15 @@ def gen_case(rng, k):
             L.append("SURFACE %d" % n)
             mode = rng.choice(["ddl", "no_edl", "diffuse", "donnan", "ddl", "cd"])
             if mode == "cd":
-                mode = "ddl"
-            L.append(" Hfo_w %s %s %s" % (fmt(rng.uniform(1e-4, 5e-3)), fmt(rng.uniform(100, 700)), fmt(rng.uniform(0.05, 2))))
-            if rng.random() < 0.6:
-                L.append(" Hfo_s %s" % fmt(rng.uniform(1e-6, 1e-4)))
+                L.append(" Goe_uniOH-0.5 %s %s %s" % (fmt(rng.uniform(1, 4)), fmt(rng.uniform(50, 120)), fmt(rng.uniform(0.1, 2))))
+                if rng.random() < 0.7:
+                    L.append(" Goe_triO-0.5 %s" % fmt(rng.uniform(1, 3)))
+                L.append(" -capacitance %s %s" % (fmt(rng.uniform(0.8, 1.2)), fmt(rng.uniform(0.6, 0.9))))
+                L.append(" -cd_music")
+            else:
+                L.append(" Hfo_w %s %s %s" % (fmt(rng.uniform(1e-4, 5e-3)), fmt(rng.uniform(100, 700)), fmt(rng.uniform(0.05, 2))))
+                if rng.random() < 0.6:
+                    L.append(" Hfo_s %s" % fmt(rng.uniform(1e-6, 1e-4)))
             if mode == "no_edl":
                 L.append(" -no_edl")
             elif mode == "diffuse":
@@ -595,6 +633,21 @@ def run_round_trip(ctx, cases, static_defects, kw2cls, timeout_each=60):
     Cc = vlib.run_inputs(jobs, timeout_each, workers)
     vlib.log("[C10] round C: %d jobs %.1fs" % (len(jobs), time.time() - t0))
 
+    t0 = time.time()
+    BIN = run_bin(live, timeout_each, workers)
+    vlib.log("[C10] in-memory copies (storage bin, serializer): %d cases %.1fs" % (len(live), time.time() - t0))
+
+    opt_member = {}
+    try:
+        for sch in schemas():
+            for it in sch["items"]:
+                if it["k"] == "lines" and it["args"]:
+                    opt_member[(sch["cls"], it["opt"])] = re.sub(r"[\[#.].*", "", it["args"][0][0])
+                elif it["k"] in ("block", "subs"):
+                    opt_member[(sch["cls"], it["opt"])] = it["m"]
+    except Exception:
+        pass
+
     def explain(opts):
         """static defects that mention one of these option names"""
         return [d for d in static_defects if d[1].startswith("-") and d[1][1:].lower() in [o.lower() for o in opts]]
@@ -640,6 +693,7 @@ def run_round_trip(ctx, cases, static_defects, kw2cls, timeout_each=60):
                     {"errors": rb.get("rc"), "first": err[:600]}, "no errors")
             continue
         # text fixed point
+        c.text_restored = True
         if c.d1 == c.d2:
             stats["d1_eq_d2"] += 1
         else:
@@ -656,6 +710,7 @@ def run_round_trip(ctx, cases, static_defects, kw2cls, timeout_each=60):
             if real and not unexplained:
                 stats["d1_ne_d2_explained"] += 1
             if unexplained:
+                c.text_restored = False
                 d = unexplained[0]
                 add(c, "restore:%s:-%s" % (d[0], d[1]), "state is not restored: %s -%s differs between first and second dump" % (d[0], d[1]),
                     {"first_dump": d[2].strip(), "second_dump": d[3].strip(), "n_differing_lines": len(unexplained)}, "identical lines")
@@ -708,6 +763,53 @@ def run_round_trip(ctx, cases, static_defects, kw2cls, timeout_each=60):
                                 "text": lambda nd, pre=pre, c=c: pre + truncate_digits(c.d1, nd) + "\nEND\n" + c.follow,
                                 "what": "follow-up RUN_CELLS differs between original and restored state (%s)" % label,
                                 "key": "followup:%s:%s" % (label, d[1]), "extra": {"followup": c.follow}})
+        # in-memory storage-bin copy and binary serialisation copy
+        rbn = BIN.get(c.id) or {}
+        c.bin_orig = None
+        if rbn.get("timeout") or rbn.get("crash"):
+            add(c, "copy:%s" % ("timeout" if rbn.get("timeout") else "crash"), "copying the state through cxxStorageBin / Serializer %s" %
+                ("does not return" if rbn.get("timeout") else "crashes"), rbn.get("stderr", "")[:500], "normal return")
+        elif rbn.get("rcA") == 0 and "dumpA" in rbn:
+            stats["copies"] = stats.get("copies", 0) + 1
+            for tag, nm in (("bin", "dumpB"), ("ser", "dumpC")):
+                ta, tb = rbn["dumpA"], rbn[nm]
+                if tag == "ser":
+                    # the binary packing carries the user number but not the free-text description of an entity
+                    ta = re.sub(r"(?m)^(\w+_RAW\s+-?\d+).*$", r"\1", ta)
+                    tb = re.sub(r"(?m)^(\w+_RAW\s+-?\d+).*$", r"\1", tb)
+                if ta != tb:
+                    diffs = text_diff(ta, tb)
+                    seenp = set()
+                    for d in diffs:
+                        if (d[0], d[1]) in seenp or len(seenp) >= 6:
+                            continue
+                        seenp.add((d[0], d[1]))
+                        key = "copy:%s:%s:-%s" % (tag, d[0], d[1])
+                        mem = opt_member.get((kw2cls.get(d[0]), d[1]))
+                        st = [x for x in static_defects if x[0] == kw2cls.get(d[0]) and mem and x[1] == "serialize:" + mem]
+                        if tag == "ser" and st:
+                            key = "schema:%s:%s" % (st[0][0], st[0][1])
+                        add(c, key, "the %s copy of the state differs from the original: %s -%s" %
+                            ("cxxStorageBin" if tag == "bin" else "Serializer (binary)", d[0], d[1]),
+                            {"original": d[2].strip()[:200], "copy": d[3].strip()[:200], "n_differing_lines": len(diffs)}, "identical RAW text")
+            ro = rbn.get("orig") or {}
+            if ro.get("rc") == 0 and "97" in (ro.get("tables") or {}):
+                tob = vlib.table_dicts(ro["tables"]["97"])
+                c.bin_orig = tob
+                for tag in ("bin", "ser"):
+                    rr = rbn.get(tag) or {}
+                    if rr.get("rc") != 0 or "97" not in (rr.get("tables") or {}):
+                        add(c, "followup:%s:error:%s" % (tag, err_signature(rr.get("err"))), "follow-up RUN_CELLS fails on the %s copy but not on the original" % tag,
+                            (rr.get("err") or "")[:600], "same results", {"followup": c.follow})
+                        continue
+                    trb = vlib.table_dicts(rr["tables"]["97"])
+                    if tag == "bin":
+                        c.bin_copy = trb
+                    d = first_diff(tob, trb)
+                    if d:
+                        add(c, "followup:%s:%s" % (tag, d if isinstance(d, str) else d[1]),
+                            "follow-up RUN_CELLS differs between the original and its %s copy: %s" % (tag, (d if isinstance(d, str) else "row %d column %s: %r vs %r" % d)),
+                            str(d), "relative difference <= 1e-7", {"followup": c.follow})
         # SOLUTION_MODIFY with totals / total_h / total_o / cb only
         if c.mod:
             mo, mr = B.get(c.id + "/Mo") or {}, B.get(c.id + "/Mr") or {}
@@ -758,14 +860,32 @@ def run_round_trip(ctx, cases, static_defects, kw2cls, timeout_each=60):
                     pass
             dev14 = abs(float(a) - float(b)) if isinstance(a, float) and isinstance(b, float) else None
             desc = "row %d column %s: %r (original) vs %r (restored)" % (i, h, a, b)
-            if dev14 and devs and max(devs) >= 5 * dev14:
+            cc = p["c"]
+            # (a) the deviation scales with the number of digits kept, (b) its size is what the 13/12-digit deviations predict
+            # for 14 digits, (c) the exact in-memory copy of the same state reproduces the original at 1e-7 in that cell,
+            # (d) every value the text carries was restored (second dump identical apart from items Coq classifies as dropped)
+            scaled = bool(dev14 and len(devs) == 2 and max(devs) >= 5 * dev14
+                          and dev14 <= 20 * max(devs[0] / 10.0, devs[1] / 100.0))
+            copy_ok = False
+            try:
+                if p["label"] != "modify":
+                    copy_ok = close(cc.bin_orig[i][h], cc.bin_copy[i][h]) and close(cc.bin_orig[i][h], a, 1e-9)
+                else:
+                    copy_ok = getattr(cc, "bin_copy", None) is not None and first_diff(cc.bin_orig, cc.bin_copy) is None
+            except Exception:
+                copy_ok = False
+            text_ok = getattr(cc, "text_restored", False)
+            if scaled and copy_ok and text_ok:
                 stats["precision_explained"] = stats.get("precision_explained", 0) + 1
                 add(p["c"], "precision:dump-text-14-digits",
                     "DUMP prints 14 significant digits; the loss in -total_h/-total_o (~1e-12 mol) changes follow-up results by more than 1e-7 relative: " + desc,
-                    {"cell": desc, "deviation_with_14_digits": dev14, "deviation_with_13_and_12_digits": devs, "path": p["label"]},
+                    {"cell": desc, "deviation_with_14_digits": dev14, "deviation_with_13_and_12_digits": devs, "path": p["label"],
+                     "in_memory_copy_agrees_with_original": copy_ok, "text_fully_restored": text_ok},
                     "relative difference <= 1e-7", p["extra"])
             else:
-                add(p["c"], p["key"], p["what"] + ": " + desc, {"cell": desc, "deviation_with_13_and_12_digits": devs}, "relative difference <= 1e-7", p["extra"])
+                add(p["c"], p["key"], p["what"] + ": " + desc,
+                    {"cell": desc, "deviation_with_14_digits": dev14, "deviation_with_13_and_12_digits": devs, "scales_with_digits": scaled,
+                     "in_memory_copy_agrees_with_original": copy_ok, "text_fully_restored": text_ok}, "relative difference <= 1e-7", p["extra"])
     # model reader vs implementation on the real text
     ents_all = []
     owner = []
@@ -800,6 +920,59 @@ def run_round_trip(ctx, cases, static_defects, kw2cls, timeout_each=60):
                     add(c, "model:disagree:accepts", "the Coq model reader accepts a dump the implementation cannot read back",
                         {"model": "ok", "implementation": "errors"}, "agreement")
     return findings, stats
+
+
+def run_bin(cases, timeout_each=60, workers=6):
+    """in-memory copies through harness/c10_bin.cpp: {case id: result dict}"""
+    import concurrent.futures as cf
+    exe = vlib.build_harness("c10_bin", ["c10_bin.cpp"])
+    out = {}
+    if not cases:
+        return out
+    with vlib.scratch("c10bin") as d:
+        rows = []
+        for k, c in enumerate(cases):
+            fn = {}
+            for nm, txt in (("full", c.text), ("defs", c.defs if c.kind == "gen" else c.text), ("follow", c.follow)):
+                fn[nm] = os.path.join(d, "%s%04d.pqi" % (nm, k))
+                open(fn[nm], "w").write(txt + "\n")
+            rows.append((c, "%d\t%s\t%s\t%s\t%s\n" % (k, c.db, fn["full"], fn["defs"], fn["follow"])))
+        nb = max(1, min(workers * 2, len(rows)))
+        batches = [rows[i::nb] for i in range(nb)]
+
+        def run_batch(bi, batch):
+            res = {}
+            todo = list(batch)
+            attempt = 0
+            while todo:
+                attempt += 1
+                wd = os.path.join(d, "w%d_%d" % (bi, attempt))
+                os.makedirs(wd, exist_ok=True)
+                jf = os.path.join(wd, "jobs.tsv")
+                open(jf, "w").write("".join(r for _, r in todo))
+                rc, so, se = vlib.sh([exe, jf], cwd=wd, timeout=timeout_each * len(todo) + 20)
+                done = set()
+                for line in so.split("\n"):
+                    if line.startswith("{"):
+                        try:
+                            r = json.loads(line)
+                        except Exception:
+                            continue
+                        res[int(r["job"])] = r
+                        done.add(int(r["job"]))
+                rest = [t for t in todo if int(t[1].split("\t")[0]) not in done]
+                if not rest:
+                    break
+                bad = int(rest[0][1].split("\t")[0])
+                res[bad] = {"job": bad, "timeout": rc == 124, "crash": rc != 124, "stderr": se[-1000:]}
+                todo = rest[1:]
+            return res
+        with cf.ThreadPoolExecutor(max_workers=workers) as ex:
+            futs = [ex.submit(run_batch, bi, b) for bi, b in enumerate(batches) if b]
+            for f in futs:
+                for k, r in f.result().items():
+                    out[cases[k].id] = r
+    return out
 
 
 def modify_text(d1):
@@ -889,6 +1062,14 @@ def run(ctx):
                 continue
             if key in dyn_keys:
                 continue
+            if why == "not-dumped":
+                ctx.violation(key, "%s::Serialize carries member %s but dump_raw/read_raw do not (the RAW text loses it)" % (cls, item.split(":")[-1]),
+                              {"kind": "obligation", "theorem": ["dump_covers_copy_path"], "class": cls, "item": item, "status": why}, concrete=False)
+                continue
+            if why == "not-copied":
+                ctx.violation(key, "%s::Serialize/Deserialize do not carry member %s that dump_raw writes (binary copies lose it)" % (cls, item.split(":")[-1]),
+                              {"kind": "obligation", "theorem": ["copy_path_covers_dump"], "class": cls, "item": item, "status": why}, concrete=False)
+                continue
             ctx.violation(key, "%s::dump_raw writes %s but read_raw does not restore it (%s) -- decided by schema_ok on the regenerated schema" % (cls, item, why),
                           {"kind": "obligation", "theorem": ["defects_are_known"], "class": cls, "item": item, "status": why}, concrete=False)
         for c in serial_bad:
@@ -927,8 +1108,8 @@ def replay(ctx):
     kw2cls = {s["keyword"]: s["cls"] for s in sc if s.get("keyword")}
     text = obj["input_text"]
     defs = ""
-    if obj.get("generator") == "gen" and text.startswith(RATES):
-        defs, text = RATES, text[len(RATES):]
+    if obj.get("generator") == "gen" and text.startswith(DEFS):
+        defs, text = DEFS, text[len(DEFS):]
     c = Case(obj.get("case", "replay"), obj["database"], defs, text, obj.get("generator", "example"), obj.get("meta"))
     findings, stats = run_round_trip(ctx, [c], rep[0], kw2cls)
     for f in findings:
